@@ -22,8 +22,8 @@ structure NoClash (id : Id) (s : State) : Prop where
   name : ∀ j e, s.a.lookup j = some e → ¬ Clash id e.name
   alias : ∀ j e a, s.a.lookup j = some e → e.alias = some a → ¬ Clash id a
   roles : ∀ j e r, s.a.lookup j = some e → r ∈ e.roles → ¬ Clash id r
-  owner : ∀ j e o, s.a.lookup j = some e → e.owner = some o → ¬ Clash id o
-  dep : ∀ j e o, s.a.lookup j = some e → e.dep = some o → ¬ Clash id o
+  /-- the stored form of an empty string (a lone type byte) is not the id -/
+  empty : ¬ Clash id []
   /-- the id is not an encoded link count (5 bytes starting with the int32 type byte) -/
   counts : ∀ n, ¬ Clash id (encCount n)
   code : ∀ j e c, s.a.lookup j = some e → e.code = some c → ¬ Clash id c
@@ -137,6 +137,7 @@ theorem no_trace_of_absent {s : State} {id : Id} (hi : Inv s) (hc : NoClash id s
   have sL : Safe id bLabel := safe_reserved hc (by simp [reserved])
   have sM : Safe id bMembers := safe_reserved hc (by simp [reserved])
   have sD : Safe id bDep := safe_reserved hc (by simp [reserved])
+  have sBo : Safe id bBoss := safe_reserved hc (by simp [reserved])
   have sP : Safe id bPals := safe_reserved hc (by simp [reserved])
   have sPO : Safe id bPalsOf := safe_reserved hc (by simp [reserved])
   have sRB : Safe id bRcB := safe_reserved hc (by simp [reserved])
@@ -153,6 +154,19 @@ theorem no_trace_of_absent {s : State} {id : Id} (hi : Inv s) (hc : NoClash id s
     intro j hj; cases hl : s.a.lookup j with
     | none => simp [State.cEx, hl] at hj
     | some e => exact ⟨e, rfl⟩
+  -- a stored reference (owner, dep, boss) is empty or names an existing entity: never the absent id
+  have refB : ∀ (o : Option Bytes), (o.getD [] ≠ [] → s.bEx (o.getD []) = true) → ∀ v, o = some v → ¬ Clash id v := by
+    intro o h v hv
+    subst hv
+    by_cases hz : v = []
+    · subst hz; exact hc.empty
+    · obtain ⟨eb, hb⟩ := bOf v (h hz); exact bId v eb hb
+  have refA : ∀ (o : Option Bytes), (o.getD [] ≠ [] → s.aEx (o.getD []) = true) → ∀ v, o = some v → ¬ Clash id v := by
+    intro o h v hv
+    subst hv
+    by_cases hz : v = []
+    · subst hz; exact hc.empty
+    · obtain ⟨ea, ha⟩ := aOf v (h hz); exact aId v ea ha
   intro l hl
   simp only [Render, List.mem_append, List.mem_flatMap, Prod.exists, Map.mem_entries_iff] at hl
   rcases hl with ((((((((hl | hl) | hl) | ⟨j, e, hj, hl⟩) | ⟨j, e, hj, hl⟩) | ⟨v, i, hv, hl⟩) | ⟨v, i, hv, hl⟩) |
@@ -189,12 +203,13 @@ theorem no_trace_of_absent {s : State} {id : Id} (hi : Inv s) (hc : NoClash id s
       · exact hn
       · exact hm
     simp only [renderA, List.mem_append, List.mem_cons, List.mem_nil_iff, or_false, mem_optBucket] at hl
-    rcases hl with ((((rfl | rfl | rfl | rfl | rfl) | hl) | ⟨gs, hg, hl⟩) | ⟨c, hrc, hl⟩) | hl
+    rcases hl with ((((rfl | rfl | rfl | rfl | rfl | rfl) | hl) | ⟨gs, hg, hl⟩) | ⟨c, hrc, hl⟩) | hl
     · exact not_mentions_bucket hp
     · exact not_mentions_kv hp sN (safe_typed (hc.name j e hj))
     · exact not_mentions_kv hp sA (safe_optField hc.nil (fun a ha => hc.alias j e a hj ha))
-    · exact not_mentions_kv hp sOw (safe_optField hc.nil (fun o ho => hc.owner j e o hj ho))
-    · exact not_mentions_kv hp sD (safe_optField hc.nil (fun o ho => hc.dep j e o hj ho))
+    · exact not_mentions_kv hp sOw (safe_optField hc.nil (refB e.owner (hi.ownerExists j e hj)))
+    · exact not_mentions_kv hp sD (safe_optField hc.nil (refB e.dep (hi.depExists j e hj)))
+    · exact not_mentions_kv hp sBo (safe_optField hc.nil (refA e.boss (fun hne => hi.boss j e hj hne (by simp))))
     · exact not_mentions_listBucket hc.ne (hp2 _ sR) (fun r hr => hc.roles j e r hj hr) l hl
     · refine not_mentions_listBucket hc.ne (hp2 _ sG) ?_ l hl
       intro g hgm
@@ -302,12 +317,11 @@ instance (id x : Bytes) : Decidable (Clash id x) := by unfold Clash; exact infer
 /-- executable sufficient check for `NoClash` (used for the non-vacuity examples) -/
 def noClashCheck (id : Id) (s : State) : Bool :=
   decide (id ≠ []) && decide (id.length < 5) && reserved.all (fun x => decide (¬ Clash id x)) && decide (¬ Clash id nilField) &&
+  decide (¬ Clash id []) &&
   s.a.entries.all (fun p =>
     (decide (p.1 = id) || decide (¬ Clash id p.1)) && decide (¬ Clash id p.2.name) &&
     (match p.2.alias with | some a => decide (¬ Clash id a) | none => true) &&
     p.2.roles.all (fun r => decide (¬ Clash id r)) &&
-    (match p.2.owner with | some o => decide (¬ Clash id o) | none => true) &&
-    (match p.2.dep with | some o => decide (¬ Clash id o) | none => true) &&
     (match p.2.code with | some c => decide (¬ Clash id c) | none => true)) &&
   s.b.entries.all (fun p =>
     (decide (p.1 = id) || decide (¬ Clash id p.1)) &&
@@ -322,21 +336,19 @@ theorem counts_no_clash {id : Id} (h : id.length < 5) (n : Nat) : ¬ Clash id (e
 theorem noClash_of_check {id : Id} {s : State} (h : noClashCheck id s = true) : NoClash id s := by
   simp only [noClashCheck, Bool.and_eq_true, decide_eq_true_eq, List.all_eq_true, Bool.or_eq_true, Prod.forall,
     Map.mem_entries_iff] at h
-  obtain ⟨⟨⟨⟨⟨h1, h0⟩, h2⟩, h3⟩, h4⟩, h5⟩ := h
-  refine ⟨h1, h2, h3, ?_, ?_, ?_, ?_, ?_, ?_, ?_, counts_no_clash h0, ?_, ?_⟩
+  obtain ⟨⟨⟨⟨⟨⟨h1, h0⟩, h2⟩, h3⟩, h6⟩, h4⟩, h5⟩ := h
+  refine ⟨h1, h2, h3, ?_, ?_, ?_, ?_, ?_, h6, counts_no_clash h0, ?_, ?_⟩
   · intro j e hj hne
-    rcases (h4 j e hj).1.1.1.1.1.1 with h | h
+    rcases (h4 j e hj).1.1.1.1 with h | h
     · exact absurd h hne
     · exact h
   · intro j e hj hne
     rcases (h5 j e hj).1 with h | h
     · exact absurd h hne
     · exact h
-  · intro j e hj; exact (h4 j e hj).1.1.1.1.1.2
-  · intro j e a hj ha; have := (h4 j e hj).1.1.1.1.2; simpa [ha] using this
-  · intro j e r hj hr; exact (h4 j e hj).1.1.1.2 r hr
-  · intro j e o hj ho; have := (h4 j e hj).1.1.2; simpa [ho] using this
-  · intro j e o hj ho; have := (h4 j e hj).1.2; simpa [ho] using this
+  · intro j e hj; exact (h4 j e hj).1.1.1.2
+  · intro j e a hj ha; have := (h4 j e hj).1.1.2; simpa [ha] using this
+  · intro j e r hj hr; exact (h4 j e hj).1.2 r hr
   · intro j e c hj hc; have := (h4 j e hj).2; simpa [hc] using this
   · intro j e l hj hl; have := (h5 j e hj).2; simpa [hl] using this
 
